@@ -214,9 +214,7 @@ func TestVerifCtl(t *testing.T) {
 				res, s, _ := runEpisode(f, sd, parts[2])
 				wdEpisode.Store("")
 				if sw != nil {
-					res.SliceBlocks = writeJobSlices(sw, s, fmt.Sprintf("%s:%d:%s", f.name, sd, parts[2]))
-					res.SliceBlocks += writeBatchSlices(sw, s, fmt.Sprintf("%s:%d:%s", f.name, sd, parts[2]))
-					res.SliceBlocks += writeLifeSlices(sw, s, fmt.Sprintf("%s:%d:%s", f.name, sd, parts[2]))
+					res.SliceBlocks = writeSlices(sw, s, fmt.Sprintf("%s:%d:%s", f.name, sd, parts[2]))
 				}
 				enc.Encode(res)
 				if tracedir != "" {
@@ -246,9 +244,7 @@ func TestVerifCtl(t *testing.T) {
 			res, s, _ := runEpisode(f, seed, strategy)
 			wdEpisode.Store("")
 			if sw != nil && len(s.Panics) == 0 {
-				res.SliceBlocks = writeJobSlices(sw, s, fmt.Sprintf("%s:%d:%s", f.name, seed, strategy))
-				res.SliceBlocks += writeBatchSlices(sw, s, fmt.Sprintf("%s:%d:%s", f.name, seed, strategy))
-				res.SliceBlocks += writeLifeSlices(sw, s, fmt.Sprintf("%s:%d:%s", f.name, seed, strategy))
+				res.SliceBlocks = writeSlices(sw, s, fmt.Sprintf("%s:%d:%s", f.name, seed, strategy))
 			}
 			enc.Encode(res)
 			w.Flush()
@@ -257,4 +253,24 @@ func TestVerifCtl(t *testing.T) {
 			}
 		}
 	}
+}
+
+// writeSlices: VERIF_SLICE_KINDS (comma separated: job,batch,life,disp; default all) selects the projections
+func writeSlices(sw *bufio.Writer, s *vt.Sched, tag string) int {
+	kinds := os.Getenv("VERIF_SLICE_KINDS")
+	want := func(k string) bool { return kinds == "" || strings.Contains(","+kinds+",", ","+k+",") }
+	n := 0
+	if want("job") {
+		n += writeJobSlices(sw, s, tag)
+	}
+	if want("batch") {
+		n += writeBatchSlices(sw, s, tag)
+	}
+	if want("life") {
+		n += writeLifeSlices(sw, s, tag)
+	}
+	if want("disp") {
+		n += writeDispSlices(sw, s, tag)
+	}
+	return n
 }
